@@ -176,7 +176,7 @@ def run(call: GeneratorCall) -> Module:
 
     try:
         m = _run_func(call)
-    except Exception:
+    except BaseException:  # Including the likes of `KeyboardInterrupt`
         # The call is no longer in flight. Unlike a cached result, a failure is not remembered:
         # calling again simply runs the generator function again.
         the_cache.stack.pop()
